@@ -21,7 +21,8 @@ LEVEL_TEXT = ("Theorems in Coq over the World model (Cluster/Model.v, one action
               "independently, monitors check on the real cluster that no acknowledged write is missing from any leader of its term or later, "
               "that followers acknowledge only prefixes of their leader's log, that commit offsets rest on a quorum, that elected leaders "
               "have a maximal head and are unique per term, and that a new leader's database equals the replay of its log.")
-LEVEL_NOTE = ("Partial: (0) the positive theorems are for executions in which EVERY node keeps its disk (c01_all_disks_kept_is_run_code: the "
+LEVEL_NOTE = ("Partial: a node whose applied entries were rolled back by a later leader (figure 8) keeps its database commit offset; when it is elected again BecomeLeader builds the quorum tracker from that offset, beyond its log head, and writes up to that offset are acknowledged with no copy on any follower and can be lost (open finding figure8:database-commit-offset-beyond-log-head, scripted: corpus/cluster/10-stale-commit-offset-after-rollback.case; the loss of such a write is attributed to it); "
+              "(0) the positive theorems are for executions in which EVERY node keeps its disk (c01_all_disks_kept_is_run_code: the "
               "disk-loss-free executions of DiskLoss.xrun are exactly those of run_code); the property's weaker clause 'a majority of the ensemble "
               "keeps its disk' is REFUTED for the protocol as implemented (c01_refuted_minority_disk_loss: a node that lost its disk answers NewTerm "
               "like a node that never held anything and counts for the election's majority) and REPRODUCED on the real cluster "
@@ -46,7 +47,7 @@ ASSUMES = ["fixed ensemble (no_swap) and consistent_run for the proved theorem; 
 RULE = ("trace: seeded schedules over {deliver append/ack, open stream, snapshot, truncate, NewTerm ok/fail, grace expiry, BecomeLeader, "
         "AddFollower, DeleteShard, catch-up, client put/cput/delete/delete-range/get/list/scan on leaders and deposed leaders, crash, restart, "
         "cut/heal link, node failure notification, swap, coordinator restart, client context cancellation, Truncate redelivery, disk loss (own profile)} on 3 nodes rf 3, 4 nodes rf 3 (swaps), 5 nodes rf 3/5; "
-        "distinct by the whole action list; scripted corpus (basic, O-22 swap, figure 8, O-3b single truncate round, snapshot-node empty head, skipped-term follower, cancelled write, redelivered Truncate, minority disk loss) first")
+        "distinct by the whole action list; scripted corpus (basic, O-22 swap, figure 8, O-3b single truncate round, snapshot-node empty head, skipped-term follower, cancelled write, redelivered Truncate, minority disk loss, stale commit offset after a rollback) first")
 LEGS = [
     {"name": "cluster", "harness": "cluster", "model": "cluster", "n_quick": 60, "n_thorough": 4000,
      "corpus": "corpus/cluster", "timeout": 900, "timeout_thorough": 6000, "args": ["-mode", "c01"]},
